@@ -209,6 +209,53 @@ def gen(ctx):
                 L.append('qr.dec %s' % refqr.to_image_str(m))
                 ctx.c11_full = getattr(ctx, 'c11_full', {})
                 ctx.c11_full[L[-1]] = 'ok 1 %d %d 1 1 30313233343536373839' % (level, mask)
+    # Micro QR through the public API: complete reference symbols of every (version, level, mask), every single format
+    # module and pairs of them flipped (the one copy tolerates two wrong modules); the expected answer is the description
+    from checks import refmicro, refrmqr
+    mpos = {i: (8, 1 + i) for i in range(8)}
+    mpos.update({j: (15 - j, 8) for j in range(8, 15)})
+    for (ver, level) in refmicro.configs():
+        msegs = [(refmicro.MODE['num'], b'123')]
+        for mask in range(4):
+            m0 = refmicro.encode_forms(ver, level, mask, msegs)[0]
+            pats = [1 << a for a in range(15)] + [(1 << a) | (1 << b) for a in range(15) for b in range(a + 1, 15)]
+            if ctx.tier == 'quick':
+                pats = pats[:15] + [pats[15 + (7 * k + ver + level + mask + ctx.seed) % 105] for k in range(10)]
+            for p in [0] + pats:
+                m = [row[:] for row in m0]
+                for k, (x, y) in mpos.items():
+                    if (p >> k) & 1:
+                        m[y][x] ^= 1
+                L.append('mq.dec %s' % refqr.to_image_str(m))
+                ctx.c11_full = getattr(ctx, 'c11_full', {})
+                ctx.c11_full[L[-1]] = 'ok %d %d %d 1 %d 313233' % (ver, level, mask, refmicro.MODE['num'])
+    # rMQR through the public API: first copy with <= 2 wrong modules (second arbitrary); first copy destroyed and the
+    # second with <= 2 wrong modules
+    rsegs = [(refrmqr.MODE['num'], b'123')]
+    for (ver, level) in refrmqr.configs():
+        if ctx.tier == 'quick' and (ver + level + ctx.seed) % 4:
+            continue
+        h, w = refrmqr.SIZES[ver]
+        m0 = refrmqr.encode_forms(ver, level, 0, rsegs)[0][0]
+        c1, c2 = rm_pos(w, h)
+        word = RMV[ver + 32 * level]
+        pats = [0] + [1 << a for a in range(18)] + [(1 << a) | (1 << ((a * 5 + 3) % 18)) for a in range(18) if a != (a * 5 + 3) % 18]
+        for p in pats:
+            for consulted in (1, 2):
+                m = [row[:] for row in m0]
+
+                def putw(pos, wv):
+                    for k, (x, y) in pos.items():
+                        m[y][x] = (wv >> k) & 1
+                if consulted == 1:
+                    putw(c1, (word ^ 0x1FAB2) ^ p)
+                    putw(c2, r.below(1 << 18))
+                else:
+                    putw(c1, far_word(RMV, r, 18) ^ 0x1FAB2)
+                    putw(c2, (word ^ 0x20A7B) ^ p)
+                L.append('rm.dec %s' % refqr.to_image_str(m))
+                ctx.c11_full = getattr(ctx, 'c11_full', {})
+                ctx.c11_full[L[-1]] = 'ok %d %d 0 1 %d 313233' % (ver, level, refrmqr.MODE['num'])
     pats18 = weight_le2(18)
     for idx, word in enumerate(RMV):
         w, h = [(43, 7), (77, 9), (139, 17), (27, 11)][idx % 4]
@@ -248,7 +295,7 @@ def read(img_s, pos):
 
 def expect(l):
     t = l.split()
-    if t[0] == 'qr.dec':
+    if t[0] in ('qr.dec', 'mq.dec', 'rm.dec'):
         return _FULL.get(l)
     if t[0] == 'qr.fmt0':
         return exp_qr0(int(t[1]) & 0xFFFFFFFFFFFFFFFF) if int(t[1]) < (1 << 15) else None
